@@ -78,6 +78,74 @@ pub fn run(op: &str, rd: &mut Rd) -> Option<R> {
             let p = rd.els()?; let q = BezPath::from_vec(p).reverse_subpaths();
             let w: Vec<PathSeg> = q.segments().collect(); Ok(e_segs(&w))
         })(),
+        // rect / insets
+        "rect.bin" => (|| -> R {
+            let a = rd.rect()?; let b = rd.rect()?;
+            Ok(format!("{} {} {} {} {} {} {} {}", e_rect(a.union(b)), e_rect(a.intersect(b)), e_bool(a.overlaps(b)), e_bool(b.overlaps(a)),
+                e_bool(a.contains_rect(b)), e_bool(b.contains_rect(a)), e_insets(a - b), e_rect(b + (a - b))))
+        })(),
+        "rect.un" => (|| -> R {
+            let a = rd.rect()?;
+            Ok(format!("{} {} {} {} {} {} {} {} {} {} {} {} {} {} {} {} {} {} {}", e_rect(a.abs()), e_rect(a.expand()), e_rect(a.trunc()), e_rect(a.round()),
+                e_rect(a.ceil()), e_rect(a.floor()), e(a.area()), e(a.width()), e(a.height()), e_pt(a.origin()), e_size(a.size()), e_pt(a.center()),
+                e_bool(a.is_zero_area()), e(Shape::perimeter(&a, 0.0)), e_rect(Shape::bounding_box(&a)), e(a.min_x()), e(a.max_x()), e(a.min_y()), e(a.max_y())))
+        })(),
+        "rect.pt" => (|| -> R {
+            let a = rd.rect()?; let p = rd.pt()?;
+            Ok(format!("{} {} {} {}", e_bool(a.contains(p)), e_rect(a.union_pt(p)), Shape::winding(&a, p), e_rect(Rect::from_points(a.origin(), p))))
+        })(),
+        "rect.insets" => (|| -> R {
+            let a = rd.rect()?; let i = rd.insets()?;
+            Ok(format!("{} {} {} {} {} {} {} {} {}", e_rect(a + i), e_rect((a + i) - i), e_rect(i + a), e_rect(i - a), e_rect(a - i), e_insets(-i), e_size(i.size()), e(i.x_value()), e(i.y_value())))
+        })(),
+        "rect.misc" => (|| -> R {
+            let a = rd.rect()?; let w = rd.num()?; let h = rd.num()?; let v = rd.vec()?;
+            Ok(format!("{} {} {} {}", e_rect(a.inflate(w, h)), e_rect(a.scale_from_origin(w)), e_rect(a + v), e_rect(a - v)))
+        })(),
+        // affine
+        "aff.bin" => (|| -> R {
+            let a = rd.affine()?; let b = rd.affine()?; let p = rd.pt()?;
+            Ok(format!("{} {} {} {} {} {}", e_affine(a * b), e_pt(a * p), e_pt((a * b) * p), e_pt(a * (b * p)), e(a.determinant()), e((a * b).determinant())))
+        })(),
+        "aff.inv" => (|| -> R { let a = rd.affine()?; Ok(format!("{} {} {}", e_affine(a.inverse()), e_affine(a * a.inverse()), e_affine(a.inverse() * a))) })(),
+        "aff.family" => (|| -> R {
+            let a = rd.affine()?; let s = rd.num()?; let sx = rd.num()?; let sy = rd.num()?; let v = rd.vec()?; let c = rd.pt()?;
+            Ok([Affine::scale(s), Affine::scale_non_uniform(sx, sy), Affine::translate(v), Affine::skew(sx, sy), Affine::scale_about(s, c),
+                a.pre_scale(s), a.pre_scale_non_uniform(sx, sy), a.pre_translate(v), a.then_scale(s), a.then_scale_non_uniform(sx, sy),
+                a.then_translate(v), a.then_scale_about(s, c)].iter().map(|x| e_affine(*x)).collect::<Vec<_>>().join(" ")
+                + " " + &e_vec(a.translation()) + " " + &e_affine(a.with_translation(v)))
+        })(),
+        "aff.rot" => (|| -> R {
+            let a = rd.affine()?; let th = rd.num()?; let c = rd.pt()?;
+            Ok([Affine::rotate(th), Affine::rotate_about(th, c), a.pre_rotate(th), a.pre_rotate_about(th, c), a.then_rotate(th), a.then_rotate_about(th, c)]
+                .iter().map(|x| e_affine(*x)).collect::<Vec<_>>().join(" "))
+        })(),
+        "aff.reflect" => (|| -> R { let p = rd.pt()?; let d = rd.vec()?; Ok(e_affine(Affine::reflect(p, d))) })(),
+        "aff.rect" => (|| -> R { let a = rd.affine()?; let r = rd.rect()?; Ok(format!("{} {}", e_rect(a.transform_rect_bbox(r)), e_affine(Affine::map_unit_square(r)))) })(),
+        "aff.seg" => (|| -> R {
+            let a = rd.affine()?; let s = rd.seg()?; let t = rd.num()?;
+            Ok(format!("{} {} {}", e_seg(a * s), e_pt((a * s).eval(t)), e_pt(a * s.eval(t))))
+        })(),
+        "aff.els" => (|| -> R { let a = rd.affine()?; let p = rd.els()?; Ok(e_els(p.into_iter().map(|el| a * el))) })(),
+        "ts.bin" => (|| -> R {
+            let a = rd.tscale()?; let b = rd.tscale()?; let p = rd.pt()?;
+            Ok(format!("{} {} {} {} {} {} {} {}", e_ts(a * b), e_pt(a * p), e_affine(a.into()), e_ts(a.inverse()), e_pt(Affine::from(a) * p),
+                e_ts(TranslateScale::from_scale_about(a.scale, p)), e_ts(a + b.translation), e_ts(a - b.translation)))
+        })(),
+        "ts.shapes" => (|| -> R {
+            let a = rd.tscale()?; let l = rd.line()?; let r = rd.rect()?; let q = rd.quad()?; let c = rd.cubic()?;
+            Ok(format!("{} {} {} {}", e_line(a * l), e_rect(a * r), e_quad(a * q), e_cubic(a * c)))
+        })(),
+        "path.area_meta" => (|| -> R {
+            // area of p, of reverse(p), of A*p, det A, of p with every segment split at t, of p with every segment raised to a cubic
+            let a = rd.affine()?; let t = rd.num()?; let p = rd.els()?;
+            let bp = BezPath::from_vec(p);
+            let rev = bp.reverse_subpaths();
+            let tr = a * bp.clone();
+            let split = BezPath::from_path_segments(bp.segments().flat_map(|s| [s.subsegment(0.0..t), s.subsegment(t..1.0)]));
+            let raised = BezPath::from_path_segments(bp.segments().map(|s| PathSeg::Cubic(s.to_cubic())));
+            Ok(format!("{} {} {} {} {} {}", e(bp.area()), e(rev.area()), e(tr.area()), e(a.determinant()), e(split.area()), e(raised.area())))
+        })(),
         _ => return None,
     })
 }
